@@ -1,4 +1,4 @@
-"""PROTOTYPE C05: files changed == files selected by include/exclude (find-and-fix and SAST mode); nothing outside written."""
+"""C05: files changed == files selected by include/exclude (find-and-fix and SAST mode); nothing outside written."""
 import base64, collections, json, os, random, re, sys
 from vf.runner import run_check, Violation
 b64 = lambda b: base64.b64encode(b).decode()
@@ -45,11 +45,20 @@ def patterns(rnd, files, line_no):
         k = rnd.choice(("lit", "dir", "ext", "star", "q", "cls", "line", "deep"))
         return {"lit": f, "dir": (parts[0] + "/*") if len(parts) > 1 else "*.py", "ext": "*" + os.path.splitext(f)[1], "star": "*" + parts[-1][1:], "q": f[:-4] + "?" + f[-3:], "cls": f[:-4] + "[0-9]" + f[-3:],
                 "line": f + ":" + str(line_no), "deep": "*/" + parts[-1]}[k]
-    return [one() for _ in range(rnd.randint(1, 3))]
+    out = [one() for _ in range(rnd.randint(1, 3))]
+    # the same glob once bare and once (or twice) with a :line suffix, in either order; duplicates of a pattern
+    if rnd.random() < 0.35:
+        g = rnd.choice([p for p in out if ":" not in p] or [rnd.choice(rels)])
+        extra = [g + ":" + str(line_no)] + ([g + ":" + str(line_no + 40)] if rnd.random() < 0.4 else [])
+        pos = rnd.randint(0, len(out))
+        out = out[:pos] + extra + out[pos:]
+        if g not in out: out.insert(rnd.randint(0, len(out)), g)
+        if rnd.random() < 0.3: out.append(g)
+    return out
 
 def plan(tier, seed):
     rnd = random.Random(f"C05:{seed}"); jobs = []
-    n = 60 if tier == "quick" else 800
+    n = 150 if tier == "quick" else 1500
     for k in range(n):
         files = tree(rnd); sast = rnd.random() < 0.35
         inc = patterns(rnd, files, 2) if rnd.random() < 0.5 else None   # an include with :line restricts the file to that line (C13): name the trigger line
